@@ -22,6 +22,13 @@ import (
 // real GroupCoordinator.OffsetCommit / OffsetFetch.
 
 type c16Commit struct {
+	// Op: "" = offset commit (the fields below); group lifecycle events on group G
+	// (lifecycle run only): "join" = one more member joins (JoinGroup, all members
+	// re-join until they agree on the generation, then SyncGroup, leader first);
+	// "leave" = the most recently joined member sends LeaveGroup (the group becomes
+	// empty when it was the last); "expire" = the sessions of all members of G time
+	// out and the coordinator's cleanup pass evicts them (the group becomes empty).
+	Op   string `json:",omitempty"`
 	G, T int // indexes into the name alphabets
 	P    int32
 	V    int // value variant
@@ -53,11 +60,14 @@ type c16Sys struct {
 	coord   *GroupCoordinator
 	members map[string]string
 	gens    map[string]int32
+	mlist   map[string][]string // live member ids per group, in join order
 	close   func()
+	// rejected counts commits of a live member answered with an error code
+	rejected int64
 }
 
 func c16New(kind string) *c16Sys {
-	s := &c16Sys{kind: kind, members: map[string]string{}, gens: map[string]int32{}}
+	s := &c16Sys{kind: kind, members: map[string]string{}, gens: map[string]int32{}, mlist: map[string][]string{}}
 	var store metadata.Store
 	switch kind {
 	case "inmem":
@@ -97,7 +107,131 @@ func (s *c16Sys) member(group string) (string, int32, error) {
 	}
 	s.members[group] = resp.MemberID
 	s.gens[group] = resp.Generation
+	s.mlist[group] = append(s.mlist[group], resp.MemberID)
 	return resp.MemberID, resp.Generation, nil
+}
+
+func (s *c16Sys) joinReq(group, member string) *kmsg.JoinGroupRequest {
+	req := kmsg.NewPtrJoinGroupRequest()
+	req.Version = 4
+	req.Group = group
+	req.MemberID = member
+	req.SessionTimeoutMillis = 30000
+	req.RebalanceTimeoutMillis = 30000
+	req.ProtocolType = "consumer"
+	p := kmsg.NewJoinGroupRequestProtocol()
+	p.Name = "range"
+	req.Protocols = append(req.Protocols, p)
+	return req
+}
+
+// settle lets every live member of the group re-join (as clients do on a rebalance)
+// until all of them hold the same generation, then SyncGroup, leader first; records
+// the committing member (the oldest) and the generation.
+func (s *c16Sys) settle(group string) error {
+	ms := s.mlist[group]
+	if len(ms) == 0 {
+		delete(s.members, group)
+		delete(s.gens, group)
+		delete(s.mlist, group)
+		return nil
+	}
+	var gen int32
+	leader := ""
+	for round := 0; ; round++ {
+		if round == 4 {
+			return fmt.Errorf("group %q members do not settle", group)
+		}
+		ok := true
+		for i, m := range ms {
+			resp, err := s.coord.JoinGroup(context.Background(), s.joinReq(group, m))
+			if err != nil {
+				return err
+			}
+			if resp.MemberID != m {
+				return fmt.Errorf("re-join of %q answered member %q", m, resp.MemberID)
+			}
+			if resp.ErrorCode != 0 || (i > 0 && resp.Generation != gen) {
+				ok = false
+			}
+			gen = resp.Generation
+			leader = resp.LeaderID
+		}
+		if ok {
+			break
+		}
+	}
+	order := []string{leader}
+	for _, m := range ms {
+		if m != leader {
+			order = append(order, m)
+		}
+	}
+	for _, m := range order {
+		req := kmsg.NewPtrSyncGroupRequest()
+		req.Version = 3
+		req.Group = group
+		req.Generation = gen
+		req.MemberID = m
+		resp, err := s.coord.SyncGroup(context.Background(), req)
+		if err != nil {
+			return err
+		}
+		if resp.ErrorCode != 0 {
+			return fmt.Errorf("sync of %q code %d", m, resp.ErrorCode)
+		}
+	}
+	s.members[group] = ms[0]
+	s.gens[group] = gen
+	return nil
+}
+
+// lifecycle applies a group lifecycle event; emptied reports that the group had
+// members before and has none after.
+func (s *c16Sys) lifecycle(op, group string) (emptied bool, err error) {
+	switch op {
+	case "join":
+		resp, err := s.coord.JoinGroup(context.Background(), s.joinReq(group, ""))
+		if err != nil {
+			return false, err
+		}
+		if resp.MemberID == "" {
+			return false, fmt.Errorf("join without member id (code %d)", resp.ErrorCode)
+		}
+		s.mlist[group] = append(s.mlist[group], resp.MemberID)
+		return false, s.settle(group)
+	case "leave":
+		ms := s.mlist[group]
+		req := kmsg.NewPtrLeaveGroupRequest()
+		req.Version = 2
+		req.Group = group
+		if len(ms) == 0 {
+			// nobody to leave: an unknown member's LeaveGroup must change nothing
+			req.MemberID = "nobody"
+			_ = s.coord.LeaveGroup(context.Background(), req)
+			return false, nil
+		}
+		req.MemberID = ms[len(ms)-1]
+		resp := s.coord.LeaveGroup(context.Background(), req)
+		if resp.ErrorCode != 0 {
+			return false, fmt.Errorf("leave of %q code %d", req.MemberID, resp.ErrorCode)
+		}
+		s.mlist[group] = ms[:len(ms)-1]
+		return len(ms) == 1, s.settle(group)
+	case "expire":
+		had := len(s.mlist[group]) > 0
+		s.coord.mu.Lock()
+		if st := s.coord.groups[group]; st != nil {
+			for _, m := range st.members {
+				m.lastHeartbeat = time.Time{} // longer ago than any session timeout
+			}
+		}
+		s.coord.mu.Unlock()
+		s.coord.cleanupGroups()
+		s.mlist[group] = nil
+		return had, s.settle(group)
+	}
+	return false, fmt.Errorf("unknown op %q", op)
 }
 
 func (s *c16Sys) commit(c c16Commit) (int16, error) {
@@ -203,7 +337,27 @@ func c16Run(rep *vh.Report, kind string, hist []c16Commit) {
 		s.close()
 	}()
 	ref := map[c16Key]c16Val{}
+	// emptiedAfter: the key's group lost its last member after the key's last commit
+	emptiedAfter := map[c16Key]bool{}
+	life, emptiedCommitted := false, false
 	for _, c := range hist {
+		if c.Op != "" {
+			life = true
+			emptied, err := s.lifecycle(c.Op, c16Groups[c.G])
+			if err != nil {
+				rep.Violationf("harness", hist, "%s %s %q: %v", kind, c.Op, c16Groups[c.G], err)
+				return
+			}
+			if emptied {
+				for k := range ref {
+					if k.G == c16Groups[c.G] {
+						emptiedAfter[k] = true
+						emptiedCommitted = true
+					}
+				}
+			}
+			continue
+		}
 		code, err := s.commit(c)
 		if err != nil {
 			rep.Violationf("harness", hist, "%s commit %+v: %v", kind, c, err)
@@ -211,13 +365,23 @@ func c16Run(rep *vh.Report, kind string, hist []c16Commit) {
 		}
 		if code == 0 {
 			ref[c16Key{c16Groups[c.G], c16Topics[c.T], c.P}] = c16Vals[c.V]
+			delete(emptiedAfter, c16Key{c16Groups[c.G], c16Topics[c.T], c.P})
 			if c.Pair {
 				ref[c16Key{c16Groups[c.G], c16Topics[c.T2], c.P2}] = c16Val{3, ""}
+				delete(emptiedAfter, c16Key{c16Groups[c.G], c16Topics[c.T2], c.P2})
 			}
+		} else {
+			s.rejected++
 		}
+	}
+	if s.rejected > 0 {
+		rep.Count("commits_rejected", s.rejected)
 	}
 	distinctKeys := map[c16Key]bool{}
 	for _, c := range hist {
+		if c.Op != "" {
+			continue
+		}
 		distinctKeys[c16Key{c16Groups[c.G], c16Topics[c.T], c.P}] = true
 		if c.Pair {
 			distinctKeys[c16Key{c16Groups[c.G], c16Topics[c.T2], c.P2}] = true
@@ -256,6 +420,8 @@ func c16Run(rep *vh.Report, kind string, hist []c16Commit) {
 				}
 				if (off != want.Off || meta != want.Meta) && c16Alias(kind, c16Key{g, t, p}, ref) {
 					rep.Violationf(kind+":separator-in-name-key-aliasing", hist, "fetch(%q,%q,%d) = (%d,%q), last commit was (%d,%q): overwritten through another tuple with the same flat key; all=%v", g, t, p, off, meta, want.Off, want.Meta, ref)
+				} else if (off != want.Off || meta != want.Meta) && emptiedAfter[c16Key{g, t, p}] {
+					rep.Violationf(kind+":commit-lost-when-group-became-empty", hist, "fetch(%q,%q,%d) = (%d,%q), last successful commit was (%d,%q); the group's last member left/expired after that commit - committed offsets must outlive the members; all=%v", g, t, p, off, meta, want.Off, want.Meta, ref)
 				} else if off != want.Off || meta != want.Meta {
 					rep.Violationf(kind+":name-aliasing-or-lost-commit", hist, "fetch(%q,%q,%d) = (%d,%q), last commit was (%d,%q); all=%v", g, t, p, off, meta, want.Off, want.Meta, ref)
 				}
@@ -265,6 +431,15 @@ func c16Run(rep *vh.Report, kind string, hist []c16Commit) {
 	}
 	sort.Strings(sig)
 	rep.Eval(1)
+	if life {
+		// lifecycle run: non-trivial = a group with a committed offset became empty
+		rep.Outcome(kind+fmt.Sprint(hist), emptiedCommitted)
+		rep.Count("lifecycle_histories", 1)
+		if emptiedCommitted {
+			rep.Count("lifecycle_histories_emptying_a_committed_group", 1)
+		}
+		return
+	}
 	rep.Outcome(kind+fmt.Sprint(hist), len(distinctKeys) >= 2)
 	if len(distinctKeys) >= 2 && rep.WantSample() {
 		rep.Sample(map[string]any{"store": kind, "history": hist, "committed": fmt.Sprint(ref)})
@@ -274,8 +449,8 @@ func c16Run(rep *vh.Report, kind string, hist []c16Commit) {
 func TestVerifC16(t *testing.T) {
 	rep := vh.New(t, "C16")
 	defer rep.Finish()
-	rep.Rule = "every history of <=2 (thorough 3 over a reduced alphabet) successful commits over groups x topics x partitions x (offset,metadata) variants, names chosen to collide under ':' and '/offsets/' key schemes, through real GroupCoordinator.OffsetCommit; then OffsetFetch of every (group,topic,partition) of the alphabet vs a tuple-keyed reference map; both stores (InMemoryStore, EtcdStore over fake etcd); distinct = distinct histories; non-trivial = history touches >= 2 distinct keys"
-	rep.Assumptions = []string{"fake etcd stands for etcd (plain Put/Get/prefix Get)"}
+	rep.Rule = "every history of <=2 (thorough 3 over a reduced alphabet) successful commits over groups x topics x partitions x (offset,metadata) variants, names chosen to collide under ':' and '/offsets/' key schemes, through real GroupCoordinator.OffsetCommit; then OffsetFetch of every (group,topic,partition) of the alphabet vs a tuple-keyed reference map; both stores (InMemoryStore, EtcdStore over fake etcd); distinct = distinct histories; non-trivial = history touches >= 2 distinct keys. Lifecycle run: every history of <=4 events over commits (2 groups (thorough 3) x 2 topics x 2 values) and group lifecycle events per group (member joins + SyncGroup, newest member leaves, all sessions expire + cleanup pass), at least one lifecycle event, same fetch sweep and reference map (membership does not change committed offsets); non-trivial there = a group holding a committed offset became empty"
+	rep.Assumptions = []string{"fake etcd stands for etcd (plain Put/Get/prefix Get/Delete)", "session expiry is produced by zeroing the members' lastHeartbeat and calling the coordinator's own cleanupGroups pass (no wall-clock wait)", "DeleteGroups is not enumerated (Kafka removes offsets with an explicitly deleted group)"}
 	var rp []c16Commit
 	if ok, err := vh.LoadReplay(&rp); ok {
 		if err != nil {
@@ -321,6 +496,56 @@ func TestVerifC16(t *testing.T) {
 		hist := make([]c16Commit, len(idx))
 		for i, v := range idx {
 			hist[i] = events[v]
+		}
+		for _, k := range []string{"inmem", "etcd"} {
+			c16Run(rep, k, hist)
+		}
+		return true
+	})
+	// Lifecycle run: commits interleaved with membership changes of the committing
+	// group. Committed offsets must outlive the members (the statement: a fetch
+	// returns the last successful commit), so the reference map ignores membership.
+	lifeGroups := []int{0, 3}
+	lifeDepth := 4
+	if vh.Thorough() {
+		lifeGroups = []int{0, 1, 3}
+	}
+	var life []c16Commit
+	for _, g := range lifeGroups {
+		for _, tp := range []int{0, 1} {
+			for _, v := range []int{1, 0} {
+				life = append(life, c16Commit{G: g, T: tp, P: 0, V: v})
+			}
+		}
+	}
+	for _, op := range []string{"leave", "expire", "join"} {
+		for _, g := range lifeGroups {
+			life = append(life, c16Commit{Op: op, G: g})
+		}
+	}
+	rep.SetInfo("lifecycle_alphabet", len(life))
+	rep.SetInfo("lifecycle_depth", lifeDepth)
+	enum.Sequences(len(life), lifeDepth, func(idx []int) bool {
+		hasOp := false
+		for _, v := range idx {
+			if life[v].Op != "" {
+				hasOp = true
+			}
+		}
+		if !hasOp {
+			return true // pure commit histories belong to the run above
+		}
+		cnt++
+		if cnt%n != shard {
+			return true
+		}
+		if cnt%512 == 0 && !deadline.IsZero() && deadlinePassed(deadline) {
+			rep.Cap("deadline (lifecycle run)")
+			return false
+		}
+		hist := make([]c16Commit, len(idx))
+		for i, v := range idx {
+			hist[i] = life[v]
 		}
 		for _, k := range []string{"inmem", "etcd"} {
 			c16Run(rep, k, hist)
